@@ -207,6 +207,18 @@ func (p *Packer) packWalkFn(root, src, dst string, tarW *tar.Writer, meta *Meta,
 			return nil
 		}
 
+		// Get the relative path from the initial root directory. This is the
+		// path the entry has inside the slug, and therefore the path that the
+		// ignore rules apply to (it differs from the path above while walking
+		// a dereferenced external directory).
+		subpath, err = filepath.Rel(root, strings.Replace(path, src, dst, 1))
+		if err != nil {
+			return fmt.Errorf("failed to get relative path for file %q: %w", path, err)
+		}
+		if subpath == "." {
+			return nil
+		}
+
 		if r := matchIgnoreRules(subpath, ignoreRules); r.Excluded {
 			return nil
 		}
@@ -221,15 +233,6 @@ func (p *Packer) packWalkFn(root, src, dst string, tarW *tar.Writer, meta *Meta,
 					return nil
 				}
 			}
-		}
-
-		// Get the relative path from the initial root directory.
-		subpath, err = filepath.Rel(root, strings.Replace(path, src, dst, 1))
-		if err != nil {
-			return fmt.Errorf("failed to get relative path for file %q: %w", path, err)
-		}
-		if subpath == "." {
-			return nil
 		}
 
 		// Check the file type and if we need to write the body.
